@@ -255,10 +255,12 @@ def r_impartial(c):
             out = A(torch.tensor(J, dtype=dt)).double().numpy()
             cos = (J @ out) / (np.linalg.norm(J, axis=1) * max(np.linalg.norm(out), 1e-300))
             bad = []
-            if not np.all(cos > 0):
-                bad.append(f"non-positive cosine {cos.tolist()} ({dt})")
-            r = cos / u
-            if not np.max(np.abs(r - r[0])) <= tol * max(1.0, abs(r[0])):
+            # a zero preference asks for cosine zero with that row (cosines lie in [-1, 1]: absolute tolerance); positive preferences for positive cosines
+            if not (np.all(cos[u > 0] > 0) and np.all(np.abs(cos[u == 0]) <= tol)):
+                bad.append(f"cosine sign pattern does not match the preferences: {cos.tolist()} ({dt})")
+            k = int(np.argmax(u))
+            r = cos * u[k] - cos[k] * u
+            if not np.max(np.abs(r)) <= tol * max(1.0, abs(cos[k])) * u[k]:
                 bad.append(f"cosines not proportional to the preferences: {cos.tolist()} ({dt})")
             if not abs(np.linalg.norm(out) - float((J @ out).sum() / max(np.linalg.norm(out), 1e-300))) <= tol * max(1.0, np.linalg.norm(out)):
                 bad.append(f"length is not the sum of the projections ({dt})")
